@@ -125,10 +125,8 @@ def run(i, props):
                 print(out[-1500:])
     finally:
         sh(["git", "-C", "/repo", "worktree", "remove", "--force", wt])
-        alt = os.path.join(V, ".build")
-        for n in os.listdir(alt):
-            if n.startswith("alt-"):
-                shutil.rmtree(os.path.join(alt, n), ignore_errors=True)
+        import hashlib
+        shutil.rmtree(os.path.join(V, ".build", "alt-" + hashlib.sha1(os.path.abspath(wt).encode()).hexdigest()[:8]), ignore_errors=True)
     save_meta(i, m)
     return m
 
